@@ -141,7 +141,10 @@ class Message(BaseMessage):
             raise ValueError('copy must be same message type')
 
         if 'data' in overrides:
-            overrides['data'] = bytearray(overrides['data'])
+            # Make a copy of the data so a generator can be checked
+            # and then used. (Not bytearray(): that turns an int into
+            # that many zero bytes instead of rejecting it.)
+            overrides['data'] = tuple(overrides['data'])
 
         msgdict = vars(self).copy()
         msgdict.update(overrides)
